@@ -1,5 +1,6 @@
 import PyImpSpec.Gen.Elements
 import PyImpSpec.Cdc.Model
+import PyImpSpec.DataSet.Model
 
 /-! Line-protocol driver: one request per line (`<model> <op> <args…>`), one canonical reply per line.
 Run with `lake env lean --run Driver/Main.lean`.  The harness sends the same inputs to the real
@@ -28,16 +29,91 @@ def cdcReply (fl : String) (input : String) : String :=
   | .ok c => "ok " ++ c.canon Gen.elemTable
   | .error e => "err " ++ e.name
 
-def step (line : String) : String :=
-  match line.splitOn " " with
-  | ["cdc", fl, hex] => cdcReply fl (decodeHex hex)
-  | ["cdc", fl] => cdcReply fl ""
-  | _ => "bad-op"
+/-! ### DataSet -/
 
-partial def loop (h : IO.FS.Stream) : IO Unit := do
+def ints (s : String) : List Int :=
+  if s = "-" then [] else (s.splitOn ",").filterMap String.toInt?
+
+def pairs (s : String) : DataSet.MaskArg :=
+  if s = "-" then [] else (s.splitOn ",").filterMap fun p =>
+    match p.splitOn ":" with
+    | [k, v] => (k.toInt?).map fun k => (k, v = "1")
+    | _ => none
+
+def showInts (l : List Int) : String := ",".intercalate (l.map toString)
+def showView (v : List (Int × Int)) : String := ",".intercalate (v.map fun p => s!"{p.1}:{p.2}")
+def showPairs (m : DataSet.MaskArg) : String := ",".intercalate (m.map fun p => s!"{p.1}:{if p.2 then 1 else 0}")
+
+def obs (d : DataSet.DS) : String :=
+  s!"f={showInts d.freqs};z={showInts d.imps};m={showPairs d.getMask};vn={showView (d.view none)};vf={showView (d.view (some false))};vt={showView (d.view (some true))}"
+
+structure DState where
+  ds : List (Nat × DataSet.DS) := []
+
+def DState.get (st : DState) (k : Nat) : Option DataSet.DS := (st.ds.find? (·.1 = k)).map (·.2)
+def DState.put (st : DState) (k : Nat) (d : DataSet.DS) : DState :=
+  { st with ds := (k, d) :: st.ds.filter (·.1 ≠ k) }
+
+def dsStep (st : DState) (args : List String) : DState × String :=
+  match args with
+  | ["reset"] => ({ st with ds := [] }, "ok")
+  | ["new", k, fs, zs, m] =>
+    match DataSet.construct (ints fs) (ints zs) (pairs m) with
+    | .ok (d, m') => (st.put k.toNat! d, s!"ok {obs d}|{showPairs m'}")
+    | .error e => (st, "err " ++ e)
+  | ["old", k, fs, zs, m] =>
+    match DataSet.constructOld (ints fs) (ints zs) (pairs m) with
+    | .ok (d, m') => (st.put k.toNat! d, s!"ok {obs d}|{showPairs m'}")
+    | .error e => (st, "err " ++ e)
+  | ["avg", n, ks] =>
+    let ds := (ks.splitOn ",").filterMap fun k => st.get k.toNat!
+    match DataSet.average ds with
+    | .ok d' => (st.put n.toNat! d', "ok " ++ obs d')
+    | .error e => (st, "err " ++ e)
+  | [op, k, a] =>
+    match st.get k.toNat! with
+    | none => (st, "err no-slot")
+    | some d =>
+      match op with
+      | "setmask" => let d' := d.setMask (pairs a); (st.put k.toNat! d', "ok " ++ obs d')
+      | "lowpass" => let d' := d.lowPass a.toInt!; (st.put k.toNat! d', "ok " ++ obs d')
+      | "highpass" => let d' := d.highPass a.toInt!; (st.put k.toNat! d', "ok " ++ obs d')
+      | "sub" =>
+        match d.subtract (ints a) with
+        | .ok d' => (st.put k.toNat! d', "ok " ++ obs d')
+        | .error e => (st, "err " ++ e)
+      | "dup" =>
+        match d.duplicate with
+        | .ok d' => (st.put a.toNat! d', "ok " ++ obs d')
+        | .error e => (st, "err " ++ e)
+      | _ => (st, "bad-op")
+  | ["rt", k, n, dm, dv] =>
+    match st.get k.toNat! with
+    | none => (st, "err no-slot")
+    | some d =>
+      let x := d.toDict
+      let x' : DataSet.Dict := { x with mask := if dm = "1" then none else x.mask, version := if dv = "1" then none else x.version }
+      match DataSet.fromDict x' with
+      | .ok (d', x'') => (st.put n.toNat! d', s!"ok {obs d'}|{decide (x'' = x')}")
+      | .error e => (st, "err " ++ e)
+  | ["obs", k] =>
+    match st.get k.toNat! with
+    | none => (st, "err no-slot")
+    | some d => (st, "ok " ++ obs d)
+  | _ => (st, "bad-op")
+
+def step (st : DState) (line : String) : DState × String :=
+  match line.splitOn " " with
+  | ["cdc", fl, hex] => (st, cdcReply fl (decodeHex hex))
+  | ["cdc", fl] => (st, cdcReply fl "")
+  | "ds" :: args => dsStep st args
+  | _ => (st, "bad-op")
+
+partial def loop (h : IO.FS.Stream) (st : DState) : IO Unit := do
   let line ← h.getLine
   if line.isEmpty then return ()
-  IO.println (step line.trimAscii.toString)
-  loop h
+  let (st', out) := step st line.trimAscii.toString
+  IO.println out
+  loop h st'
 
-def main : IO Unit := do loop (← IO.getStdin)
+def main : IO Unit := do loop (← IO.getStdin) {}
